@@ -257,6 +257,52 @@ func WGWait(site string, wg *sync.WaitGroup) {
 	park("woke:" + site)
 }
 
+// ---- sync.Pool ---------------------------------------------------------------
+
+var (
+	poolMu sync.Mutex
+	pools  = map[*sync.Pool][]any{}
+)
+
+// PoolGet / PoolPut replace (*sync.Pool).Get / Put: a plain LIFO per pool, so that which
+// object comes back depends on the schedule only (the real pool keeps per-P caches and
+// drops objects at GC). Outside a simulation they fall through to the real pool.
+func PoolGet(p *sync.Pool) any {
+	if S == nil {
+		return p.Get()
+	}
+	poolMu.Lock()
+	l := pools[p]
+	if n := len(l); n > 0 {
+		x := l[n-1]
+		pools[p] = l[:n-1]
+		poolMu.Unlock()
+		return x
+	}
+	poolMu.Unlock()
+	if p.New != nil {
+		return p.New()
+	}
+	return nil
+}
+
+func PoolPut(p *sync.Pool, x any) {
+	if S == nil {
+		p.Put(x)
+		return
+	}
+	poolMu.Lock()
+	pools[p] = append(pools[p], x)
+	poolMu.Unlock()
+}
+
+// resetPools forgets pooled objects of an earlier run of this process.
+func resetPools() {
+	poolMu.Lock()
+	pools = map[*sync.Pool][]any{}
+	poolMu.Unlock()
+}
+
 // ---- time, cpu, randomness --------------------------------------------------
 
 func Sleep(d time.Duration) {
